@@ -228,7 +228,9 @@ def showWalk (w : List Nat × Bool) (f : Nat → String) : String :=
 /-- `A <len> f[ids] b[ids] v[values via All()]` -/
 def DSt.dump (s : DSt) (l : Nat) : String :=
   let f := s.forward l walkCap
-  s!"{s.lenOf l} f{showWalk f toString} b{showWalk (s.backward l walkCap) toString} v{showWalk f fun e => toString (s.val.get e)}"
+  -- a sentinel reached by a walk (only possible after misuse of the API) is not a handle: `?`
+  let nm := fun (e : Nat) => if e < s.nl then "?" else toString e
+  s!"{s.lenOf l} f{showWalk f nm} b{showWalk (s.backward l walkCap) nm} v{showWalk f fun e => toString (s.val.get e)}"
 
 def DSt.dumpAll (s : DSt) : String :=
   " | ".intercalate ((List.range s.nl).map fun l => s.dump l)
@@ -267,6 +269,7 @@ def DSt.dumpAllBig (s : DSt) : String :=
 def parseList (s : DSt) (t : String) : Option Nat :=
   if t = "A" then (if 0 < s.nl then some 0 else none)
   else if t = "B" then (if 1 < s.nl then some 1 else none)
+  else if t = "C" then (if 2 < s.nl then some 2 else none)
   else none
 
 /-- A handle is the id of an allocated node. -/
@@ -403,7 +406,10 @@ def parseDOp (s : DSt) (ts : List String) : Option DOp :=
 function `DSt.apply` the refinement theorem is about. -/
 def DSt.step (s : DSt) (ts : List String) : Option (Option (DSt × String)) := do
   let op ← parseDOp s ts
-  pure ((s.apply op).map fun (s1, r) => (s1, showRes r))
+  pure ((s.apply op).map fun (s1, r) =>
+    (s1, match r with
+      | .ptr (some e) => if e < s.nl then "?" else toString e   -- a sentinel is not a handle
+      | r => showRes r))
 
 /-- Bulk line `pushn L k`: `k` times `PushBack(i % 10)`, i.e. `k` applications of `DSt.apply`. -/
 def DSt.pushN (l : Nat) : Nat → Nat → DSt → Option DSt
@@ -466,7 +472,7 @@ def DSt.stepBulk (s : DSt) (ts : List String) : Option (Option (DSt × String)) 
     let l ← parseList s l
     let (ops, brk) ← parseBody (parseDOp s) script
     pure ((DSt.rangeAll (bodyAt ops) (fun i => brk.contains i) bigCap 0 (s.front l) s []).map
-      fun (s1, ys, ok) => (s1, showYield ys true ok))
+      fun (s1, ys, ok) => (s1, (showYield ys true ok)))
   | _ => s.step ts
 
 def runDOps (big : Bool) : Option DSt → List String → List String
@@ -479,18 +485,20 @@ def runDOps (big : Bool) : Option DSt → List String → List String
     | some (some (s1, out)) =>
       (out ++ " | " ++ (if big then s1.dumpAllBig else s1.dumpAll)) :: runDOps big (some s1) ls
 
-/-- Header `@ C13 dlist <kA> <kB> [big]`: each list starts as the zero value (`z`) or from
-`NewDoubly()` (`n`); `big` = long lists, dumps are digests of the full traversals. -/
+/-- Header `@ C13 dlist <kA> <kB> [<kC>] [big]`: two or three lists, each starting as the zero
+value (`z`) or from `NewDoubly()` (`n`); `big` = long lists, dumps are digests of the full
+traversals. -/
 def runDListCase (hdr : List String) (ops : List String) : List String :=
-  let mk (k : String) (l : Nat) (s : DSt) : Option DSt :=
-    if k = "z" then some s else if k = "n" then some (s.init l) else none
-  let go (ka kb : String) (big : Bool) : List String :=
-    match (mk ka 0 (DSt.zero 2)).bind (mk kb 1) with
-    | none => "bad-op" :: ops.map fun _ => "bad-op"
-    | some s => ("ok | " ++ (if big then s.dumpAllBig else s.dumpAll)) :: runDOps big (some s) ops
-  match hdr with
-  | [ka, kb] => go ka kb false
-  | [ka, kb, "big"] => go ka kb true
-  | _ => "bad-op" :: ops.map fun _ => "bad-op"
+  let bad : List String := "bad-op" :: ops.map fun _ => "bad-op"
+  let kinds := hdr.takeWhile fun k => k = "z" || k = "n"
+  let rest := hdr.dropWhile fun k => k = "z" || k = "n"
+  let nl := kinds.length
+  if (nl = 2 ∨ nl = 3) ∧ (rest = [] ∨ rest = ["big"]) then
+    let big := rest = ["big"]
+    -- `NewDoubly()` = zero value + `Init()`
+    let s := (List.range nl).foldl (fun (s : DSt) l => if kinds[l]? = some "n" then s.init l else s)
+      (DSt.zero nl)
+    ("ok | " ++ (if big then s.dumpAllBig else s.dumpAll)) :: runDOps big (some s) ops
+  else bad
 
 end Golib.C13
